@@ -248,6 +248,15 @@ class AMapV:
         self.entries[key] = (self.entries[key][0], v)
 
 
+class ASetV:
+    """A hash set over a fixed universe of keys with SYMBOLIC membership (one Bool per key): an arbitrary subset is one symbolic
+    value, so one execution covers every pre-state.  Keys are compared structurally (Arc keys by identity)."""
+
+    def __init__(self, keys=None, present=None):
+        self.keys = list(keys or [])
+        self.present = list(present or [])      # z3 Bool terms, parallel to keys
+
+
 class SetV:
     """Abstraction of a hash set: only its size is tracked."""
 
